@@ -13,6 +13,9 @@
     c18 dep <site> <spec>                                       → issue-dependent maps: spec = the map kinds of c,s,p,g,l
         (K T N I O Z F E, - = not configured); model = Site.winnerDep (FinalizeIssue on the sources the site passes, applied
         to the features of the raw issue from Gen.leafSeen), spec = specDep (first configured source that has an answer)
+    c18 reach <outer file:line> <fin file:line> <cell> <applicable> <source>   → leaf coverage of the static catalogue: the
+        cell (constructor family x variant x input) resolved a message at these two calls; with only <source> configured the
+        model = siteMessage on the sources neither static row drops, spec = the source
     c18 loc <locale> <kind>                                      → "<model> <spec>"
         model = the entry of the regenerated Gen.localeTable, spec = 1
 -/
@@ -63,6 +66,22 @@ def histWinner (passes : SrcSet) (base : String) (cfg : Gozod.Config.Cfg String)
 
 def all5 : SrcSet := ⟨true, true, true, true, true⟩
 
+/-- the finalising row of the static table that contains `file:line` (the innermost call when calls nest) -/
+def findRow (loc : String) : Option IssueSite :=
+  match loc.splitOn ":" with
+  | [file, ln] =>
+    let n := ln.toNat?.getD 0
+    let cands := Gozod.Gen.issueSites.filter fun s =>
+      s.reaches && s.key.startsWith (file ++ ":") && s.line ≤ n && n ≤ s.lineEnd
+    cands.foldl (fun best s =>
+      match best with
+      | none => some s
+      | some b => if s.lineEnd - s.line < b.lineEnd - b.line then some s else some b) none
+  | _ => none
+
+def srcUnion (a b : SrcSet) : SrcSet :=
+  ⟨a.check || b.check, a.schema || b.schema, a.parse || b.parse, a.custom || b.custom, a.locale || b.locale⟩
+
 def handle : List String → String
   | ["wire", site, _kind, _wrapper, _appl, cfg] =>
     match findSite site with
@@ -87,6 +106,14 @@ def handle : List String → String
       | some f => s!"{s.winnerDep spec.toList f} {specDep spec.toList f}"
       | none => "no-such-leaf -"
     | none => "no-such-site -"
+  | ["reach", outer, fin, _cell, _appl, src] =>
+    -- leaf coverage: one source configured alone at a cell that reaches the static rows `outer` (first frame outside
+    -- internal/issues) and `fin` (the caller of FinalizeIssue); model = FinalizeIssue on the sources neither row drops
+    match findRow outer, findRow fin with
+    | some ro, some rf =>
+      let passes := (srcUnion ro.drops rf.drops).compl
+      s!"{siteMessage passes (setOf src)} {firstConfigured (setOf src)}"
+    | _, _ => "no-such-row -"
   | ["loc", loc, kind] =>
     match Gozod.Gen.localeRows.lookup loc, Gozod.Gen.localeKinds.idxOf? kind with
     | some row, some i =>
